@@ -73,8 +73,12 @@ def run(run: common.Run):
         descr = [f'REF{k + 1}' for k in range(case['nrb'])] if case['ref_descr'] else None
         pair = fusion.write_pair(tmp, 'c14', src, ref, s, r, sv, rv, ref_kw=dict(descriptions=descr))
         proc_ref = (case['proc'] == 'ref') or (case['proc'] == 'auto' and src.px <= ref.px)
+        # the in-painting threshold is a configuration value that is recorded in the parameter image and read back by stats:
+        # default, switched off (None), zero, and a larger one
+        thresh = [0.25, None, 0.0, 0.5][(case['i'] // 3) % 4]
         kw = dict(model=case['model'], kernel_shape=case['kernel'], proc_crs=case['proc'], param=True,
-                  threads=case['threads'], force=True)
+                  threads=case['threads'], force=True, model_config=dict(r2_inpaint_thresh=thresh))
+        run.hist[f'r2_inpaint_thresh={thresh}'] += 1
         try:
             multi, hv = fusion.run_fuse_blocks(case['halvings'], src, ref, proc_ref, pair.src_path, pair.ref_path,
                                                tmp / 'c14_multi.tif', src_bands=case['src_bands'], ref_bands=case['ref_bands'],
